@@ -236,6 +236,18 @@ func RunGlobalMatrix(repo, verif string, seed int) int {
 		ctx = c
 	}
 	muts := genMutants(ctx, funcs)
+	if kinds := os.Getenv("VERIF_MUTKIND"); kinds != "" { // e.g. "swap arguments|sibling field": only these mutation operators
+		var keep []Mutant
+		for _, m := range muts {
+			for _, k := range strings.Split(kinds, "|") {
+				if strings.Contains(m.Desc, k) {
+					keep = append(keep, m)
+					break
+				}
+			}
+		}
+		muts = keep
+	}
 	total := len(muts)
 	limit := 1500
 	if s := os.Getenv("VERIF_MUTANTS"); s != "" {
